@@ -1937,6 +1937,58 @@ fn verif_native_import(
     None
 }
 
+/// Verification hook H3, stream/future half (same guard as
+/// `verif_native_import`).
+///
+/// `code` is the text of one generated `vtableN` module. When the hook is
+/// active each non-wasm `unreachable!()` shim in it is replaced by the
+/// declaration of a real `extern "C"` symbol named
+/// `[verif-import]{module}#{link_name}` where `link_name` is the one the
+/// `wasm32` block of the same module gives to that function. With the guard
+/// off `code` is returned unchanged.
+#[allow(
+    unexpected_cfgs,
+    reason = "verification-only cfg, never set by cargo"
+)]
+fn verif_native_payload_vtable(code: String, module: &str) -> String {
+    #[cfg(bytecodealliance_wit_bindgen_verif)]
+    if std::env::var_os("WIT_BINDGEN_VERIF").is_some_and(|v| v == "1") {
+        const SHIM: &str = " { unreachable!() }";
+        let lines = code.lines().collect::<Vec<_>>();
+        let fn_name = |l: &str| -> Option<String> {
+            let rest = l.trim_start().strip_prefix("unsafe extern \"C\" fn ").or_else(|| l.trim_start().strip_prefix("fn "))?;
+            Some(rest[..rest.find('(')?].to_string())
+        };
+        let mut link_names = std::collections::HashMap::new();
+        for pair in lines.windows(2) {
+            if let Some(rest) = pair[0].trim_start().strip_prefix("#[link_name = \"") {
+                if let (Some(end), Some(name)) = (rest.rfind("\"]"), fn_name(pair[1])) {
+                    link_names.insert(name, rest[..end].to_string());
+                }
+            }
+        }
+        let mut out = String::new();
+        for l in lines {
+            match (l.trim_end().strip_suffix(SHIM), fn_name(l)) {
+                (Some(decl), Some(name)) if link_names.contains_key(&name) => {
+                    let decl = decl.trim_start().strip_prefix("unsafe extern \"C\" ").unwrap();
+                    out.push_str(&format!(
+                        "    unsafe extern \"C\" {{ #[link_name = \"[verif-import]{module}#{}\"] {decl}; }}\n",
+                        link_names[&name]
+                    ));
+                }
+                _ => {
+                    out.push_str(l);
+                    out.push('\n');
+                }
+            }
+        }
+        return out;
+    }
+    let _ = module;
+    code
+}
+
 fn int_repr(repr: Int) -> &'static str {
     match repr {
         Int::U8 => "u8",
